@@ -19,6 +19,7 @@ import (
 	"math/rand"
 	"os"
 	"path/filepath"
+	"regexp"
 	"runtime/debug"
 	"sort"
 	"strings"
@@ -225,6 +226,18 @@ func TestVerifC09Retry(t *testing.T) {
 				t.Fatal(err)
 			}
 			ops = verifStoreOps(env, trng)
+			// a property that borrows this harness for its own operations names them
+			// (VERIF_C09_OPS: regular expression on the method name)
+			if pat := os.Getenv("VERIF_C09_OPS"); pat != "" {
+				re := regexp.MustCompile(pat)
+				var sel []verifOp
+				for _, op := range ops {
+					if re.MatchString(op.method) {
+						sel = append(sel, op)
+					}
+				}
+				ops = sel
+			}
 		}
 		// directed (first case of a template): a Prepare that fails after it waited longer than
 		// longQueryDuration — what "database is locked" looks like when the busy timeout expires.
